@@ -26,6 +26,12 @@ pub struct PcKnobs {
     pub compat: i64,
     /// 0 A offers, 1 B offers
     pub offerer: i64,
+    /// ICE-TCP (RFC 6544 candidates, RFC 4571 framing): 0 off (UDP only); TCP only: 1 active offerer x passive
+    /// answerer (listener from tcp_port_range), 2 passive offerer x active answerer, 4 as 1 with the answerer on the
+    /// process-wide single shared TCP port (range start == end); mixed: 3 both ends UDP hosts + passive TCP,
+    /// 5 TCP-only active offerer x answerer with UDP hosts + passive TCP (only the TCP pair can work),
+    /// 6 offerer with UDP hosts + passive TCP x TCP-only active answerer
+    pub tcp: i64,
 }
 
 impl PcKnobs {
@@ -40,6 +46,7 @@ impl PcKnobs {
             latch: p.knob("latch", 0),
             compat: p.knob("compat", 0),
             offerer: p.knob("offerer", 0),
+            tcp: p.knob("tcp", 0),
         }
     }
     pub fn has_dc(&self) -> bool {
@@ -53,6 +60,20 @@ impl PcKnobs {
     }
     /// The written-down compatibility predicate of C10: combinations outside it are not claimed.
     pub fn compatible(&self) -> Result<(), &'static str> {
+        if self.tcp != 0 {
+            if !(1..=6).contains(&self.tcp) {
+                return Err("unknown ICE-TCP configuration");
+            }
+            if self.mode != 0 {
+                return Err("ICE-TCP is an ICE feature (WebRtc mode)");
+            }
+            if self.lite != 0 {
+                return Err("ICE-lite with TCP candidates is not claimed (one passive feature per side)");
+            }
+            if self.udpmux != 0 {
+                return Err("single-port UDP mux together with TCP candidates is not claimed");
+            }
+        }
         if self.has_dc() && self.mode != 0 {
             return Err("data channels need WebRtc mode");
         }
@@ -99,6 +120,29 @@ pub fn make_config(k: &PcKnobs, side: usize, plan: &Plan) -> RtcConfiguration {
     if k.udpmux == 1 && side == answerer {
         c.ice_udp_mux = true;
         c.ice_udp_mux_port = Some(7000 + (plan.seed % 1000) as u16);
+    }
+    if k.tcp != 0 {
+        // which candidates this side gathers: (UDP hosts, passive TCP listener from a port range)
+        let is_off = side != answerer;
+        let (udp, listen) = match (k.tcp, is_off) {
+            (1 | 4, true) => (false, false), // active only
+            (1 | 4, false) => (false, true),
+            (2, true) => (false, true),
+            (2, false) => (false, false),
+            (3, _) => (true, false), // UDP hosts + the passive listener that host gathering binds on port 0
+            (5, true) => (false, false),
+            (5, false) => (true, false),
+            (6, true) => (true, false),
+            (_, _) => (false, false),
+        };
+        c.ice_tcp_policy = rustrtc::config::IceTcpPolicy::Enabled;
+        c.ice_gather_udp_hosts = udp;
+        if listen {
+            let base = 50_000 + (plan.seed % 500) as u16 * 8;
+            c.tcp_port_range_start = Some(base);
+            // tcp = 4: start == end selects the process-wide shared listener with demultiplexing by ufrag
+            c.tcp_port_range_end = Some(if k.tcp == 4 { base } else { base + 3 });
+        }
     }
     c.enable_latching = k.latch != 0;
     if k.latch == 2 {
